@@ -689,6 +689,7 @@ class Verifier(Engine):
             return info
         self.cur_func = c.name
         self.cur_contract = c
+        self.cur_relpath = relpath
         self.aux_facts = []
         self.func_line = fd.lineno
         self.loop_ordinals = {}
@@ -820,7 +821,7 @@ class Verifier(Engine):
                 cond = self.clause(c.raises[o.exc], pst)
                 self.emit(st, cond, f"raises.{o.exc}.only_when", text=c.raises[o.exc])
                 # callers assume that a declared exception leaves the state as it was: prove it for every field this function may write
-                for hk in c.modifies:
+                for hk in (c.modifies if c.atomic_raises else []):
                     rname, fname = hk.split(".")
                     rec = self.tenv.records[rname]
                     now, before = self.heap_arr(st, rec, fname), self.heap_arr(pre, rec, fname)
